@@ -21,6 +21,7 @@ import (
 	"reflect"
 	"sort"
 	"strings"
+	"sync"
 	"testing"
 	"time"
 
@@ -32,7 +33,64 @@ import (
 	"verif.local/h"
 )
 
-func TestVerif_C02_Token(t *testing.T)       { h.Check(t, c02ID, c02Gen, c02Run) }
+func TestVerif_C02_Token(t *testing.T) {
+	h.Check(t, c02ID, c02Gen, c02Run)
+	if !t.Failed() {
+		c02VacuityGuard(t)
+	}
+}
+
+// Vacuity guard (unit level). The property bounds issuance from above ("issued only when ..."), so a single defect-free
+// request that is refused is not a failure: it is counted as class honest-refused:*. But a run in which the node refuses
+// most defect-free requests decides nothing. Rule: among the defect-free flows whose whole policy uses only plain claim ids
+// (no id named like a member of the introspection response or another RFC 7662 name - the one place where refusing an
+// honest request is a documented freedom), at least 90 % must end with a token; otherwise the run is inconclusive.
+var c02Vacuity struct {
+	sync.Mutex
+	total, accepted int
+	refusedBy       map[string]int
+}
+
+func c02VacuityGuard(t *testing.T) {
+	c02Vacuity.Lock()
+	defer c02Vacuity.Unlock()
+	if c02Vacuity.total >= 30 && c02Vacuity.accepted*10 < c02Vacuity.total*9 {
+		t.Fatalf("HARNESS: generator no longer produces acceptable requests: only %d of %d defect-free flows with plain claim ids obtained a token (refusals: %v)",
+			c02Vacuity.accepted, c02Vacuity.total, c02Vacuity.refusedBy)
+	}
+}
+
+// honest records the end of one defect-free flow: a token (refusedBy == ""), or the stage/error class that refused it.
+func (s *c02State) honest(refusedBy string) {
+	if refusedBy != "" {
+		s.x.Class("honest-refused:" + refusedBy)
+	}
+	if s.x.IsReplay || !s.plainIDs {
+		return
+	}
+	h.Count(c02ID, "TestVerif_C02_Token", "honest_flows_plain_ids", 1)
+	c02Vacuity.Lock()
+	defer c02Vacuity.Unlock()
+	c02Vacuity.total++
+	if refusedBy == "" {
+		c02Vacuity.accepted++
+		h.Count(c02ID, "TestVerif_C02_Token", "honest_flows_plain_ids_accepted", 1)
+	} else {
+		if c02Vacuity.refusedBy == nil {
+			c02Vacuity.refusedBy = map[string]int{}
+		}
+		c02Vacuity.refusedBy[refusedBy]++
+	}
+}
+
+// c02ErrClass: stable class of a refusal (OAuth2 error code, or "non-oauth2")
+func c02ErrClass(err error) string {
+	var oe oauth.OAuth2Error
+	if errors.As(err, &oe) {
+		return string(oe.Code)
+	}
+	return "non-oauth2"
+}
 func TestVerifReplay_C02_Token(t *testing.T) { h.Replay(t, c02ID, "TestVerif_C02_Token", c02Run) }
 
 const c02ID = "C02"
@@ -68,6 +126,8 @@ type c02State struct {
 	nonceN int
 	tokens []*c02Issued
 	reqN   int
+	// plainIDs: no claim id anywhere in the policy is named like a member of the introspection response or another RFC 7662 name
+	plainIDs bool
 }
 
 func (s *c02State) nonce() string {
@@ -478,19 +538,22 @@ func (s *c02State) checkExtended(is *c02Issued, m map[string]any, over func(stri
 
 func (s *c02State) scope() c02Scope { return s.c.Policy[s.c.Scope] }
 
-func (s *c02State) realPD(scope string, owner pe.WalletOwnerType) pe.PresentationDefinition {
+func (s *c02State) realPD(scope string, owner pe.WalletOwnerType) (pe.PresentationDefinition, error) {
 	m, err := s.fx.w.policyBackend.PresentationDefinitions(context.Background(), scope)
-	s.x.NoErr(err, "policy backend lookup")
+	if err != nil {
+		return pe.PresentationDefinition{}, err
+	}
 	pd, ok := m[owner]
 	if !ok {
-		s.x.Fatalf("policy backend lost the %s definition of %s", owner, scope)
+		return pe.PresentationDefinition{}, fmt.Errorf("policy backend has no %s definition for %s", owner, scope)
 	}
-	return pd
+	return pd, nil
 }
 
 // walletRender: the request exactly as the node's own wallet builds it (holder.BuildSubmission with the real
 // definition from the real policy backend) - used for defect-free "wallet" layouts.
-func (s *c02State) walletRender(r *c02Request, owner pe.WalletOwnerType, aud string, nonce string) c02Rendered {
+// It fails when the node's policy backend or wallet refuse (not a harness failure: the caller falls back to the assembled form).
+func (s *c02State) walletRender(r *c02Request, owner pe.WalletOwnerType, aud string, nonce string) (c02Rendered, error) {
 	now := time.Now()
 	signerDID := c02Keys[r.Signer].did
 	var creds []vc.VerifiableCredential
@@ -508,14 +571,20 @@ func (s *c02State) walletRender(r *c02Request, owner pe.WalletOwnerType, aud str
 		formats["ldp_vc"] = map[string][]string{"proof_type_values_supported": {"JsonWebSignature2020"}}
 		formats["jwt_vc_json"] = map[string][]string{"alg_values_supported": {"ES256"}}
 	}
-	vp, sub, err := w.BuildSubmission(c02Ctx(), []did.DID{signerDID}, nil, s.realPD(s.scope().Name, owner), holder.BuildParams{
+	pd, err := s.realPD(s.scope().Name, owner)
+	if err != nil {
+		return c02Rendered{}, err
+	}
+	vp, sub, err := w.BuildSubmission(c02Ctx(), []did.DID{signerDID}, nil, pd, holder.BuildParams{
 		Audience: aud, DIDMethods: []string{"jwk"}, Expires: now.Add(5 * time.Second), Format: formats, Nonce: nonce,
 	})
-	s.x.NoErr(err, "node wallet BuildSubmission")
+	if err != nil {
+		return c02Rendered{}, err
+	}
 	sb, _ := json.Marshal(sub)
 	var sj map[string]any
 	_ = json.Unmarshal(sb, &sj)
-	return c02Rendered{Assertion: vp.Raw(), Submission: string(sb), VPs: []vc.VerifiablePresentation{*vp}, SubJSON: sj}
+	return c02Rendered{Assertion: vp.Raw(), Submission: string(sb), VPs: []vc.VerifiablePresentation{*vp}, SubJSON: sj}, nil
 }
 
 func c02ParseURL(x *h.Ctx, s string) *url.URL {
